@@ -82,6 +82,8 @@ def rule_polarity(ctx: Ctx) -> None:
 
 
 def run(ctx: Ctx) -> None:
+    from rules import C04
+    ctx.run(C04.rule_marking)  # AP / APH monotonicity rests on what is marked TP: no result may be skipped because its (legitimate) threshold is 0
     ctx.run(M.rule_cmpdir)
     ctx.run(rule_polarity)
     ctx.run(C03.rule_correct)
